@@ -326,6 +326,8 @@ def main():
             else:
                 k = rnd.choice([0, 1, 2])
                 prior = [edited(len(order) // 2), source[: len(source) // 2] + rnd.randbytes(5000), edited(len(order)) + source][k]
+                if m["cmd"] == "clone" and m["inplace"] and (m["pin"] == "mismatch" or m["arch"] == "invalid") and rnd.random() < 0.5:
+                    prior = source      # nothing would have to be fetched: the refusal must not depend on that
             open(out, "wb").write(prior)
             if m["out"].startswith("bd_"):
                 run_env["BITA_VERIF_BLOCKDEV"] = "1"
@@ -343,7 +345,8 @@ def main():
                 args += ["--verify-header", wrong_sum]
             for i in range(m["nseeds"]):
                 sp = os.path.join(d, "seed%d.bin" % i)
-                open(sp, "wb").write(edited(len(order) // 2) if i == 0 else rnd.randbytes(20000))
+                refused_early = m["pin"] == "mismatch" or m["arch"] == "invalid"
+                open(sp, "wb").write((source if refused_early else edited(len(order) // 2)) if i == 0 else rnd.randbytes(20000))
                 roles[sp] = "seed"
                 args += ["--seed", sp]
             if m.get("seed_out"):
